@@ -21,7 +21,7 @@ RULE = ("for each of the catalogued functions with a structure: values built fro
         "(records as dicts or positional lists, open lists of length 0/1/2/7/256, every allowed alternative type of each "
         "data item forced with typed wrappers, item lengths 0/1/limit-1/limit) plus plain-Python-value variants (incl. doubles wherever F8 is allowed); public flag attributes of class and object; the "
         "catalogue consistency sub-check enumerates all catalogued functions and all 128x256 (S,F) lookups; distinct by "
-        "(function, reference body, input style); non-trivial when the body is non-empty")
+        "(function, reference body, input style); non-trivial when the body is non-empty; plain 1 / 1.0 / True one after the other to S6F20, S1F4, S2F14")
 ASSUMPTIONS = ["lib/e5ref.py is the E5 reference", "fixed-type data items take plain Python values, multi-format items take "
                "typed wrappers to force a format (the library's documented convention)", "S1F2/S1F14-style dual structures "
                "are exercised in the catalogued structure only"]
@@ -342,6 +342,39 @@ def _catalogue_isolation(ctx):
             secs_streams_functions[:] = list(shipped.values())
 
 
+def _equal_values_of_other_kinds(ctx, SF, rounds):
+    """Plain 1, 1.0, True (0, 0.0, False) - equal in Python, different kinds - given one after the other, in any order, to functions
+    whose items allow an integer, a float and the boolean type: each is read back as its own kind, whatever was sent before.
+    (A Python bool is an int too: it stays a boolean when Boolean stands before every integer type in the item's list.)"""
+    from secsgem.secs import data_items as DI
+    from secsgem.secs import functions as F
+
+    rng = ctx.rng
+    targets = [(F.SecsS06F20, DI.V), (F.SecsS01F04, DI.SV), (F.SecsS02F14, DI.ECV)]
+    for _ in range(rounds):
+        cls, item = rng.choice(targets)
+        names = [t.__name__ for t in item.__allowedtypes__]
+        first_int = min((names.index(n) for n in names if n[0] in "UI" and n[1:].isdigit()), default=len(names))
+        bool_first = "Boolean" in names and names.index("Boolean") < first_int
+        k = rng.choice([0, 1])
+        values = [k, float(k), bool(k)]
+        rng.shuffle(values)
+        for val in values + [rng.choice(values)]:
+            ctx.count("oracle.equal_values_of_other_kinds")
+            want = val if not isinstance(val, bool) or bool_first else int(val)
+            wit = {"function": f"S{cls.stream}F{cls.function}", "value": repr(val), "order": [repr(v) for v in values]}
+            try:
+                obj = cls([val])
+                dec = SF.decode(_message(cls.stream, cls.function, cls._is_reply_required, obj.encode()))
+                got = dec.get()
+            except Exception as exc:
+                ctx.violation(f"plain-roundtrip-raises:{type(exc).__name__}", {**wit, "error": repr(exc)[:300]})
+                return
+            if not (isinstance(got, list) and len(got) == 1 and type(got[0]) is type(want) and got[0] == want):
+                ctx.violation("plain-value-comes-back-as-another-kind", {**wit, "got": repr(got)})
+                return
+
+
 def run(ctx):
     from secsgem.secs.functions import StreamsFunctions
     from secsgem.secs.functions._all import secs_streams_functions
@@ -353,6 +386,7 @@ def run(ctx):
     cat = _items_catalogue()
     SF = StreamsFunctions()
     per_fn = 240 if ctx.quick else 12000
+    _equal_values_of_other_kinds(ctx, SF, 6)
     stats = set()
     fns = sorted(secs_streams_functions, key=lambda c: (c.stream, c.function))
     for i, cls in enumerate(fns):
@@ -384,4 +418,5 @@ def run(ctx):
                     _plain_case(ctx, cls, SF, plain2, expected2, label)
             if rep == 0 and i < 3:
                 ctx.sample({"function": label, "tree": gen.describe(tree), "body": e5ref.encode(tree)[:40]})
+    _equal_values_of_other_kinds(ctx, SF, 20 if ctx.quick else 2000)
     ctx.count("alternatives.covered", len(stats))
